@@ -29,7 +29,7 @@ def programs(w) -> Any:
     rng = w.rng
     thorough = w.tier == "thorough"
     max_own = 5 if thorough else 3
-    rounds = 40 if thorough else 3
+    rounds = 150 if thorough else 10
     surrounds = ("none", "post", "post+snap", "inv")
     index = 0
     for rnd in range(rounds):
